@@ -227,6 +227,47 @@ def build():
                   ("well-typed: int", "implies(result is not None, is_int(result))")],
          raises=REJ, modifies=[], replay_seeds={"item": ["16", "128", 64]})
 
+    # ---- build_spec: the section's own definition of a key wins over the base spec; the spec is never modified
+    def spec_tree(I, name):
+        """config_spec = {'sec': {'k': own, 'a': ...}, 'base': {'k': inherited, 'b': ...}} with symbolic leaves"""
+        def leaf(n):
+            return VStr(z3.String(n))
+        sec = I.new_dict((("k", leaf("spec.sec.k")), ("a", leaf("spec.sec.a"))), "spec_sec")
+        base = I.new_dict((("k", leaf("spec.base.k")), ("b", leaf("spec.base.b"))), "spec_base")
+        return I.new_dict((("sec", sec), ("base", base)), "config_spec")
+
+    def deepcopy_model(I, args, kwargs):
+        v = I.force(args[0])
+        if v.tag == "dict":
+            c = I.container(v.ref)
+            return I.new_dict(tuple(c.entries), "deepcopy")
+        return v
+    C.globals["deepcopy"] = VFn("model", model=deepcopy_model)
+
+    def spec_untouched(I):
+        this = I.frames[0].env["self"].ref
+        top0 = I.force(I.read_field(this, "config_spec", heap=I.old_heap))
+        cs = []
+        for sec, inner in I.old_heap.data[(top0.ref, "$")].entries:
+            old_e = I.old_heap.data[(I.force(inner).ref, "$")].entries
+            new_e = I.heap.data[(I.force(inner).ref, "$")].entries
+            cs.append(z3.BoolVal([k for k, _ in old_e] == [k for k, _ in new_e]))
+            for (k, a), (_, b) in zip(old_e, new_e):
+                cs.append(I.eq(a, b))
+        top1 = I.heap.data[(top0.ref, "$")].entries
+        cs.append(z3.BoolVal([k for k, _ in top1] == ["sec", "base"]))
+        return VBool(z3.And(cs))
+    C.helpers["spec_untouched"] = spec_untouched
+    C.classes["ConfigValidator"].fields["config_spec"] = Init(spec_tree)
+    C.fn("ConfigValidator.build_spec", params=dict(config_spec=Const("sec"), base_spec=Const("base")),
+         allow_decorators=["lru_cache"],
+         ensures=[("a key defined by the section itself keeps the section's definition (the base spec only adds)",
+                   "result['k'] == self.config_spec['sec']['k'] and result['a'] == self.config_spec['sec']['a']"),
+                  ("keys only in the base spec are inherited", "result['b'] == self.config_spec['base']['b']"),
+                  ("validation never modifies the spec", "spec_untouched()")],
+         modifies=[], raises={},
+         bounded="one section and one base spec with an overlapping key (structure concrete, entries symbolic)")
+
     def enum_member(I, param, result):
         alts = param.alts if isinstance(param, VUnion) else ((z3.BoolVal(True), param),)
         r = I.force(result)
